@@ -257,6 +257,18 @@ def c11 (h : H) : List String :=
 
 /-! ### C12 — no write into the result buffer after the call returned -/
 
+/-- the k-th look-up of the receive loop of `ep` belongs to the k-th response the other side handed to its
+    connection (injected duplicates make the pairing unreliable: then `none`) -/
+def lookupIndexOf (h : H) (ep : Nat) (seq : Int) : Option Nat :=
+  if h.any (fun e => match e with | .inj ep' "dupresp" => ep' == ep | .inj ep' "strayresp" => ep' == ep | _ => false)
+  then none else
+  let resps := (writes h (1 - ep)).filter fun (_, f) => f.kind == .resp
+  match (List.range resps.length).find? (fun k => match resps[k]? with | some (_, f) => f.seq == seq | none => false) with
+  | none => none
+  | some k =>
+    let lks := (idxd h).filter fun (_, e) => match e with | .lk ep' => ep' == ep | _ => false
+    (lks[k]?).map (·.1)
+
 def c12 (h : H) : List String :=
   h.filterMap fun e => match e with
     | .late c =>
@@ -265,7 +277,17 @@ def c12 (h : H) : List String :=
       match endOf h c with
       | some (_, .ok, _) | some (_, .app, _) =>
         some (if dup then "C12:late-write:duplicated-reply" else "C12:late-write:after-return-with-reply")
-      | _ => some "C12:late-write:returned-without-waiting-for-the-reply"
+      | some (ie, _, _) =>
+        -- known: the call was looked up BEFORE it returned and decoded after. A look-up that itself happens
+        -- after the return means the returned call was still in the table.
+        let seq := match (ops h).find? (fun o => o.c = c) with
+          | some o => (match reqFrame h o.ep o.nonce with | some (_, rf) => rf.seq | none => -1)
+          | none => -1
+        match lookupIndexOf h ep seq with
+        | some il => if il > ie then some "C12:late-write:looked-up-after-the-call-had-returned"
+                     else some "C12:late-write:returned-without-waiting-for-the-reply"
+        | none => some "C12:late-write:returned-without-waiting-for-the-reply"
+      | none => some "C12:late-write:returned-without-waiting-for-the-reply"
     | _ => none
 
 /-! ### C13 — order, distinct seqnos, exact send notifier -/
